@@ -254,9 +254,11 @@ func junkAddr(r *Rng) []byte {
 // tame makes an exec request harmless for the *pinned* GetCmd, which allocates whatever length it
 // computes (and computes it from a stale buffer when the stream ends inside a length field): the
 // two lengths that code would use are simulated and, if one exceeds 1 MiB, the input is replaced
-// by a short one.  (The junk suite goes to 32 MiB in a few explicit cases.)  A generated campaign
+// by a short one.  (The junk suite goes to 4 MiB in a few explicit cases.)  A generated campaign
 // must not take the machine down on such a tree.
-func tame(what string, b []byte) []byte {
+func tame(what string, b []byte) []byte { return tameMax(what, b, 1<<20) }
+
+func tameMax(what string, b []byte, max int) []byte {
 	if what != "exec" {
 		return b
 	}
@@ -267,7 +269,7 @@ func tame(what string, b []byte) []byte {
 			pos += copy(l, b[pos:])
 		}
 		n := int(binary.BigEndian.Uint32(l))
-		if n > 1<<20 {
+		if n > max {
 			return b[:1]
 		}
 		pos += n
@@ -543,7 +545,7 @@ func gen(g *GenCtx) {
 // ------------------------------------------------------------------ junk campaign (decoder half of C11)
 //
 // Readers that take their input from a tube, fed prefixes of valid messages whose length fields
-// announce more than follows (up to 32 MiB), valid messages, mutated messages and random bytes.
+// announce more than follows (up to 4 MiB), valid messages, mutated messages and random bytes.
 // Observable: ok | err | panic, and whether the call allocated more than 256 KiB.
 
 func be32(n uint32) []byte { return binary.BigEndian.AppendUint32(nil, n) }
@@ -554,13 +556,18 @@ func genJunk(g *GenCtx) {
 		r = NewRng(r.U64())
 	}
 	g.R = r
-	big := []uint32{0, 1, 255, 256, 65535, 65536, 1 << 17, 1 << 18, 1 << 20, 1 << 24, 1 << 25}
+	// (page-faulting fresh memory is slow on small VMs: the largest announced length is 4 MiB,
+	// which is 16 times the 256 KiB threshold)
+	big := []uint32{0, 1, 255, 256, 65535, 65536, 1 << 17, 1 << 18, 1 << 19, 1 << 20, 1 << 22}
 	// exec: announced command / terminal lengths far beyond what follows
 	for _, l := range big {
 		for _, fl := range []byte{0, 1, 2, 3, 0xff} {
-			g.Op("junk exec %s", HexOrDash(append([]byte{fl}, be32(l)...)))
-			g.Op("junk exec %s", HexOrDash(append(append([]byte{fl}, be32(l)...), r.Bytes(r.Intn(20))...)))
-			g.Op("junk exec %s", HexOrDash(append(append([]byte{fl, 0, 0, 0, 2, 'l', 's'}, be32(l)...), r.Bytes(r.Intn(4))...)))
+			if l >= 1<<20 && fl != 3 {
+				continue
+			}
+			g.Op("junk exec %s", HexOrDash(tameMax("exec", append([]byte{fl}, be32(l)...), 1<<22)))
+			g.Op("junk exec %s", HexOrDash(tameMax("exec", append(append([]byte{fl}, be32(l)...), r.Bytes(r.Intn(20))...), 1<<22)))
+			g.Op("junk exec %s", HexOrDash(tameMax("exec", append(append([]byte{fl, 0, 0, 0, 2, 'l', 's'}, be32(l)...), r.Bytes(r.Intn(4))...), 1<<22)))
 		}
 	}
 	for _, l := range []int{0, 1, 255, 256, 4095, 65535} {
